@@ -13,6 +13,7 @@
    No proofs of properties here (proofs/RungProofs.v). *)
 From Verif Require Import model.Base.
 From Coq Require Export Qround.
+From Coq Require Strings.String.
 Open Scope Q_scope.
 
 Inductive mode := Min | Max.
@@ -387,3 +388,42 @@ Definition sh_rung_levels (rung_levels : option (list Z)) (grace_period : Z) (re
 
 (* (level, prom_quant) of a rung *)
 Definition rsig (rg : rung) : Z * Q := (r_level rg, r_quant rg).
+
+(* ---- serialise / restore --------------------------------------------------------------------
+   A scheduler is saved and loaded with dill (Tuner.save / load). Rung has no __getstate__: the
+   SortedList is pickled through SortedKeyList.__reduce__ = (type, (values, key)) and rebuilt by
+   SortedKeyList(values, key=key), i.e. a stable sort of the stored values by the SAME key
+   sign * metric_val (repeated bisect_right insertion in the stored order is that stable sort). *)
+Definition sl_rebuild (md : mode) (data : list entry) : list entry :=
+  fold_left (fun acc e => sl_add md e acc) data [].
+Definition restore_rung (md : mode) (rg : rung) : rung :=
+  {| r_level := r_level rg; r_quant := r_quant rg; r_data := sl_rebuild md (r_data rg) |}.
+Definition restore_sys (md : mode) (sys : rsys) : rsys :=
+  {| rs_rungs := map (restore_rung md) (rs_rungs sys); rs_thr := rs_thr sys |}.
+Definition restore_state (cfg : config) (st : state) : state :=
+  {| s_sys := map (restore_sys (c_mode cfg)) (s_sys st); s_task := s_task st; s_active := s_active st |}.
+
+(* ---- maximum resource: TrialSchedulerWithSearcher._infer_max_resource_level (scheduler_searcher.py),
+   called by FIFOScheduler.__init__ with (kwargs.get("max_t"), max_resource_attr) ------------------
+   config_space entries: Some v = a constant, None = a hyperparameter (Domain), which is never used *)
+Module MaxT.
+Import Coq.Strings.String.
+Definition cspace := list (string * option Z).
+Fixpoint cs_getval (cs : cspace) (name : string) : option Z :=
+  match cs with
+  | [] => None
+  | (k, v) :: r => if String.eqb k name then v else cs_getval r name
+  end.
+Fixpoint first_some (cs : cspace) (names : list string) : option Z :=
+  match names with
+  | [] => None
+  | n :: r => match cs_getval cs n with Some v => Some v | None => first_some cs r end
+  end.
+Definition default_max_t_names : list string := ["epochs"; "max_t"; "max_epochs"]%string.
+Definition infer_max_resource_level (max_resource_level : option Z) (max_resource_attr : option string)
+           (cs : cspace) : option Z :=
+  let names := match max_resource_attr with Some a => a :: default_max_t_names | None => default_max_t_names end in
+  let inferred_max_t := first_some cs names in
+  match max_resource_level with Some v => Some v | None => inferred_max_t end.
+End MaxT.
+Export MaxT.
